@@ -64,8 +64,9 @@ def handle (ss : Session) (line : String) : Session × List String :=
     | .list [.atom "reset"] => ({ saved := ss.saved }, ["ok"])
     | .list [.atom "fragment-groups"] =>
         -- top-level task groups: the hypotheses of `C05_feasible_iff_groups` / `C07_groups_attainable`
-        -- (`fragmentGroupsB_sound`), and the number of groups the theorem then covers
-        (ss, ["(n 1)", (if ss.st.fragmentGroupsB then "true " else "false ") ++ toString ss.st.groups.length])
+        -- (`fragmentGroupsB_sound`; with several objectives `C05_feasible_iff_groups_multi`, `fragmentGroupsMultiB_sound`),
+        -- and the number of groups the theorem then covers
+        (ss, ["(n 1)", (if ss.st.fragmentGroupsB || (ss.st.objectives.length > 1 && ss.st.fragmentGroupsMultiB) then "true " else "false ") ++ toString ss.st.groups.length])
     | .list [.atom "fragment-multi"] =>
         -- several objectives: the hypotheses of `C05_feasible_iff_multi` / `C07_weighted_attainable` (`fragmentMultiB_sound`)
         (ss, ["(n 1)", if ss.st.fragmentMultiB then "true" else "false"])
